@@ -48,7 +48,7 @@ type c29Target struct {
 }
 
 type c29Case struct {
-	API     string      `json:"api"` // send | send-large
+	API     string      `json:"api"` // send | send-large | send-direct (calcium.Send without the RPC layer)
 	Files   []c29File   `json:"files"`
 	Targets []c29Target `json:"targets"`
 	Results []string    `json:"results,omitempty"`
@@ -203,6 +203,25 @@ func TestC29(t *testing.T) {
 		done := make(chan error, 1)
 		go func() {
 			switch c.API {
+			case "send-direct":
+				// the cluster API's own Send (the RPC handler routes through the chunked sender instead)
+				o := &types.SendOptions{IDs: reqIDs}
+				for _, f := range c.Files {
+					o.Files = append(o.Files, types.LinuxFile{Filename: f.Path, Content: c29Content(f), UID: f.UID, GID: f.GID, Mode: f.Mode})
+				}
+				ch, err := w.cl.C.Send(w.cl.Ctx("send"), o)
+				if err != nil {
+					done <- err
+					return
+				}
+				for m := range ch {
+					e := ""
+					if m.Error != nil {
+						e = m.Error.Error()
+					}
+					results = append(results, res{m.ID, m.Path, e})
+				}
+				done <- nil
 			case "send":
 				o := &pb.SendOptions{IDs: reqIDs, Data: map[string][]byte{}, Modes: map[string]*pb.FileMode{}, Owners: map[string]*pb.FileOwner{}}
 				for _, f := range c.Files {
@@ -367,6 +386,9 @@ func TestC29(t *testing.T) {
 		nf := 1
 		if c.API == "send" && r.Intn(3) == 0 {
 			nf = 2
+		}
+		if i%4 == 3 {
+			c.API, nf = "send-direct", 1+r.Intn(4)
 		}
 		for k := 0; k < nf; k++ {
 			c.Files = append(c.Files, c29File{Path: fmt.Sprintf("/data/f%d", k), Size: sizesPool[r.Intn(len(sizesPool))], UID: r.Intn(3), GID: r.Intn(3), Mode: []int64{0o644, 0o600, 0o755}[r.Intn(3)], Seed: r.Int63()})
